@@ -335,7 +335,7 @@ Proof.
     intros f [<-|[<-|[]]]; reflexivity. }
   split.
   { eexists _, [_; _], _. split; [reflexivity|]. split; [discriminate|]. split; [reflexivity|].
-    split; [intros _; reflexivity|]. split; [intros f [<-|[<-|[]]]; reflexivity|]. cbn. lia. }
+    split; [intros _; reflexivity|]. split; [intros f [<-|[<-|[]]]; reflexivity|]. vm_compute. discriminate. }
   split.
   { eexists _, [_; _], _. split; [reflexivity|]. split; [discriminate|]. split; [reflexivity|].
     intros f [<-|[<-|[]]]; reflexivity. }
